@@ -658,11 +658,15 @@ type PathFact struct {
 	v    ssa.Value // the (phi-resolved) condition value; identity decides contradictions
 }
 
+// PathRender renders a value in the context of the current path.
+type PathRender func(v ssa.Value) string
+
 type pathEnum struct {
 	p      *Prog
 	fn     *ssa.Function
 	target IM
 	visit  func(facts []PathFact, trace []*ssa.BasicBlock, at ssa.Instruction)
+	visitR func(facts []PathFact, trace []*ssa.BasicBlock, at ssa.Instruction, r PathRender)
 	cap    int
 	n      int
 	over   bool
@@ -678,7 +682,18 @@ func (p *Prog) EnumPaths(fn *ssa.Function, target IM, cap int, visit func(facts 
 	if len(fn.Blocks) == 0 {
 		return 0, false
 	}
-	pe.walk(fn.Blocks[0], nil, map[*ssa.Phi]ssa.Value{}, nil, nil, map[*ssa.BasicBlock]int{})
+	pe.walk(fn.Blocks[0], nil, map[*ssa.Phi]ssa.Value{}, nil, nil, nil, map[*ssa.BasicBlock]int{})
+	return pe.n, pe.over
+}
+
+// EnumPathsR is EnumPaths whose callback also receives a renderer bound to
+// the path (phis and local cells resolved to their values on this path).
+func (p *Prog) EnumPathsR(fn *ssa.Function, target IM, cap int, visit func(facts []PathFact, trace []*ssa.BasicBlock, at ssa.Instruction, r PathRender)) (int, bool) {
+	pe := &pathEnum{p: p, fn: fn, target: target, visitR: visit, cap: cap}
+	if len(fn.Blocks) == 0 {
+		return 0, false
+	}
+	pe.walk(fn.Blocks[0], nil, map[*ssa.Phi]ssa.Value{}, nil, nil, nil, map[*ssa.BasicBlock]int{})
 	return pe.n, pe.over
 }
 
@@ -697,7 +712,7 @@ func resolveEnv(env map[*ssa.Phi]ssa.Value, v ssa.Value) ssa.Value {
 	return v
 }
 
-func (pe *pathEnum) walk(b *ssa.BasicBlock, pred *ssa.BasicBlock, env map[*ssa.Phi]ssa.Value, facts []PathFact, trace []*ssa.BasicBlock, seen map[*ssa.BasicBlock]int) {
+func (pe *pathEnum) walk(b *ssa.BasicBlock, pred *ssa.BasicBlock, env map[*ssa.Phi]ssa.Value, cells []cellEntry, facts []PathFact, trace []*ssa.BasicBlock, seen map[*ssa.BasicBlock]int) {
 	if pe.over {
 		return
 	}
@@ -742,6 +757,9 @@ func (pe *pathEnum) walk(b *ssa.BasicBlock, pred *ssa.BasicBlock, env map[*ssa.P
 			env = ne
 		}
 	}
+	setCell := func(l loc, v ssa.Value) {
+		cells = append(cells[:len(cells):len(cells)], cellEntry{l, v})
+	}
 	for _, in := range b.Instrs {
 		if pe.target(in) {
 			pe.n++
@@ -749,8 +767,33 @@ func (pe *pathEnum) walk(b *ssa.BasicBlock, pred *ssa.BasicBlock, env map[*ssa.P
 				pe.over = true
 				return
 			}
-			pe.visit(facts, trace, in)
+			if pe.visitR != nil {
+				envc, cellsc := env, cells
+				pe.visitR(facts, trace, in, func(v ssa.Value) string {
+					r := &renderer{p: pe.p, active: map[ssa.Value]bool{}, memo: map[ssa.Value]string{}, env: envc, cells: cellsc}
+					return r.val(v, 0)
+				})
+			} else {
+				pe.visit(facts, trace, in)
+			}
 			return
+		}
+		switch x := in.(type) {
+		case *ssa.Store:
+			if l, ok := addrLoc(x.Addr); ok && l.base.Parent() == pe.fn {
+				setCell(l, resolveEnv(env, x.Val))
+			}
+		case ssa.CallInstruction:
+			for _, a := range callVals(in) {
+				if mi, ok := a.(*ssa.MakeInterface); ok {
+					a = mi.X
+				}
+				if l, ok := addrLoc(a); ok && l.base.Parent() == pe.fn {
+					if _, isPtr := a.Type().Underlying().(*types.Pointer); isPtr {
+						setCell(loc{l.base, nil}, nil) // escapes into a call: forget
+					}
+				}
+			}
 		}
 	}
 	if len(b.Instrs) == 0 {
@@ -775,13 +818,13 @@ func (pe *pathEnum) walk(b *ssa.BasicBlock, pred *ssa.BasicBlock, env map[*ssa.P
 				t = !t
 			}
 			if t {
-				pe.walk(b.Succs[0], b, env, facts, trace, seen)
+				pe.walk(b.Succs[0], b, env, cells, facts, trace, seen)
 			} else {
-				pe.walk(b.Succs[1], b, env, facts, trace, seen)
+				pe.walk(b.Succs[1], b, env, cells, facts, trace, seen)
 			}
 			return
 		}
-		r := &renderer{p: pe.p, active: map[ssa.Value]bool{}, memo: map[ssa.Value]string{}, env: env}
+		r := &renderer{p: pe.p, active: map[ssa.Value]bool{}, memo: map[ssa.Value]string{}, env: env, cells: cells}
 		canon, cneg := r.cond(cond)
 		if neg {
 			cneg = !cneg
@@ -798,11 +841,11 @@ func (pe *pathEnum) walk(b *ssa.BasicBlock, pred *ssa.BasicBlock, env map[*ssa.P
 				continue // contradicts an earlier fact on the same operands
 			}
 			nf := append(append([]PathFact{}, facts...), PathFact{canon, val, cond})
-			pe.walk(sb, b, env, nf, trace, seen)
+			pe.walk(sb, b, env, cells, nf, trace, seen)
 		}
 	default:
 		for _, sb := range b.Succs {
-			pe.walk(sb, b, env, facts, trace, seen)
+			pe.walk(sb, b, env, cells, facts, trace, seen)
 		}
 	}
 }
